@@ -52,6 +52,7 @@ var c01Points = map[string][]string{
 func c01Case(r *fw.Rand, index string) fw.Case {
 	ops := []string{"reset " + index}
 	live := map[string]bool{}
+	nf := 0 // fields introduced after a crash inside the field-set save
 	files := 0
 	batch := func() string {
 		n := 1 + r.Intn(6)
@@ -142,9 +143,19 @@ func c01Case(r *fw.Rand, index string) fw.Case {
 				}
 			}
 		case 6, 7:
-			mode := []string{"clean", "torn", "torn", "garbage", "zeros"}[r.Intn(5)]
+			mode := []string{"clean", "torn", "torn", "garbage", "zeros", "fieldstmp"}[r.Intn(6)]
 			ops = append(ops, fmt.Sprintf("crash %s %d", mode, r.Intn(100000)))
 			crashes++
+			if mode == "fieldstmp" {
+				// after the restart a write brings a field the shard has not seen: it must be
+				// accepted, saved, and readable after another restart
+				nf++
+				fld := fmt.Sprintf("x%d", nf)
+				m, tg := c10Meas[r.Intn(len(c10Meas))], []string{"-", "host=a", "host=b"}[r.Intn(3)]
+				t := c10Base + int64(r.Intn(40))*1000
+				ops = append(ops, fmt.Sprintf("w %s|%s|%d|%s=i%d", m, tg, t, fld, r.Intn(1000)), "reopen",
+					fmt.Sprintf("read %s %s %s %d %d asc", m, tg, fld, int64(-9223372036854775806), int64(9223372036854775806)))
+			}
 			observe()
 		case 8:
 			pts := c01Points["snap"]
